@@ -206,8 +206,9 @@ class C17(ProtoSpec):
     pid = "C17"
     monitor_cls = Mon
 
-    def __init__(self, tier="quick", welcome=False):
+    def __init__(self, tier="quick", welcome=False, nolist=False):
         self.welcome = welcome
+        self.nolist = nolist
         ProtoSpec.__init__(self, tier)
 
     def configure(self, tier):
@@ -228,6 +229,12 @@ class C17(ProtoSpec):
             self.max_conns = 3
             self.depth = 7
             self.max_adds = 1
+        if self.nolist:
+            # listing disallowed, a third side arrives when two sides already hold nameplate 1
+            self.cfg["allow_list"] = False
+            self.binds = [("X", "A"), ("X", "B"), ("X", "C")]
+            self.max_conns = 3
+            self.depth = 3 if tier == "quick" else 4
         self.alpha = alphabet(self.names, self.mids, self.binds)
 
     def enabled(self, worlds, mon):
@@ -258,6 +265,8 @@ class C17(ProtoSpec):
               ("raw", 1, {"type": "bind", "appid": "X", "side": "A"})]
         s2 = [("conn", 0), b0, ("raw", 0, {"type": "claim", "nameplate": "1"}), ("conn", 1),
               ("raw", 1, {"type": "bind", "appid": "X", "side": "B"}), ("raw", 1, {"type": "claim", "nameplate": "1"})]
+        if self.nolist:
+            return [s2]
         return [[], s1, s2]
 
     def nontrivial(self, worlds, mon):
@@ -275,11 +284,13 @@ RULE = ("BFS over every sequence (<= depth state-changing steps) of commands fro
 
 
 def make_spec(tier, name=None):
-    return C17(tier, welcome=(name == "c17-welcome"))
+    return C17(tier, welcome=(name == "c17-welcome"), nolist=(name == "c17-nolist"))
 
 
 def run(pid, tier, seed, args):
     from .base_run import run_specs
     b = 50 if tier == "quick" else 900
     s1, s2 = make_spec(tier, "c17"), make_spec(tier, "c17-welcome")
-    return run_specs(pid, tier, seed, args, [("c17", s1, s1.depth, b), ("c17-welcome", s2, max(2, s2.depth - 2), b)], rule=RULE)
+    s3 = make_spec(tier, "c17-nolist")
+    return run_specs(pid, tier, seed, args, [("c17", s1, s1.depth, b), ("c17-welcome", s2, max(2, s2.depth - 2), b),
+                                             ("c17-nolist", s3, s3.depth, b)], rule=RULE)
